@@ -702,10 +702,57 @@ fn selftest_parse(path: &str) {
     }
 }
 
+/// Deliberate defects, used to confirm that an instrumented build (or valgrind / Miri) really reports what C16 relies
+/// on: a check that is silent because its tool is not functioning must not pass for "held".
+fn canary(kind: &str) {
+    match kind {
+        "race" => {
+            static mut COUNTER: u64 = 0;
+            let hs: Vec<_> = (0..2)
+                .map(|_| {
+                    std::thread::spawn(|| {
+                        for _ in 0..100_000 {
+                            unsafe {
+                                let p = std::ptr::addr_of_mut!(COUNTER);
+                                p.write_volatile(p.read_volatile() + 1);
+                            }
+                        }
+                    })
+                })
+                .collect();
+            for h in hs {
+                let _ = h.join();
+            }
+            println!("{}", unsafe { std::ptr::addr_of!(COUNTER).read_volatile() });
+        }
+        "oob" => {
+            let v = vec![1u8; 16];
+            let x = unsafe { std::ptr::read_volatile(v.as_ptr().add(16 + 3)) };
+            println!("{}", x);
+        }
+        "uninit" => {
+            let layout = std::alloc::Layout::from_size_align(64, 8).unwrap();
+            let p = unsafe { std::alloc::alloc(layout) };
+            let x = unsafe { std::ptr::read_volatile(p.add(5)) };
+            if x == 7 {
+                println!("seven");
+            } else {
+                println!("other");
+            }
+            unsafe { std::alloc::dealloc(p, layout) };
+        }
+        _ => eprintln!("unknown canary"),
+    }
+}
+
 fn main() {
     let args: Vec<String> = std::env::args().collect();
     if args.len() >= 3 && args[1] == "selftest-parse" {
         selftest_parse(&args[2]);
+        return;
+    }
+    if args.len() >= 3 && args[1] == "canary" {
+        canary(&args[2]);
         return;
     }
     if args.len() < 4 || args[1] != "run" {
